@@ -2295,6 +2295,30 @@ fn has_error_line(b: &[u8]) -> bool {
 }
 
 fn c20(g: &Group, obs: &[Obs]) -> Option<String> {
+    if g.tag == "missing-file" {
+        let c = &g.cases[0];
+        let argv = c.argv("/nonexistent-directory-of-the-harness");
+        let run = match spawn_jawk(&argv[1..], b"", StdoutKind::Pipe) {
+            Ok(r) => r,
+            Err(e) => return Some(format!("{}: C20 needs the executable: {e}", c.id)),
+        };
+        if run.timed_out {
+            return Some(format!("{}: the executable did not finish within 20 s", c.id));
+        }
+        let err_text = String::from_utf8_lossy(&run.err).chars().take(200).collect::<String>();
+        match run.code {
+            Some(0) => return Some(format!("{}: the input file does not exist, yet the exit status is 0 (stderr: {err_text:?})", c.id)),
+            Some(_) => {}
+            None => return Some(format!("{}: the executable was killed by a signal on a missing input file (stderr: {err_text:?})", c.id)),
+        }
+        if run.err.iter().all(|b| b.is_ascii_whitespace()) {
+            return Some(format!("{}: a missing input file gives a non-zero exit status without a message on standard error", c.id));
+        }
+        if !run.out.is_empty() && c.spec.group.is_none() {
+            return Some(format!("{}: rows on standard output although the only input file does not exist", c.id));
+        }
+        return None;
+    }
     for (c, lib) in g.cases.iter().zip(obs) {
         if c.mode != "main" {
             continue;
